@@ -51,6 +51,7 @@ def norm(spec):
         lv.setdefault("post", 0)
         lv.setdefault("snap", 0)
         lv.setdefault("inv", 0)
+        lv.setdefault("inv_on", "C" * lv["inv"])  # check_on of each invariant: C(ALL), S(ETATTR), A(LL)
         lv.setdefault("defines", True)
     return s
 
@@ -250,7 +251,9 @@ def render(spec):
         _, _, _, invs = cond_names(spec, li)
         for name in reversed(invs):
             c = name if spec["style"] == "def" else "lambda self: lam('inv', '{}', self)".format(name)
-            w("@icontract.invariant({}{})\n".format(c, _err_arg(spec, name)))
+            on = lv["inv_on"][int(name.split("_")[1])]
+            chk = {"C": "", "S": ", check_on=icontract.InvariantCheckEvent.SETATTR", "A": ", check_on=icontract.InvariantCheckEvent.ALL"}[on]
+            w("@icontract.invariant({}{}{})\n".format(c, _err_arg(spec, name), chk))
         if li == 0:
             base = "icontract.DBC" if spec["dbc"] else "object"
         else:
@@ -373,6 +376,9 @@ def expected(spec, truth, body_mode="ret_obj", mut="none"):
         return log, ("exc", name)
 
     class_kind = kind != "func"
+    if kind not in ("init", "new"):
+        # around calls only the invariants whose check_on includes CALL are evaluated (after construction: all)
+        invs = [n for n in invs if spec["levels"][int(n[1:n.index("_")])]["inv_on"][int(n.split("_")[1])] in "CA"]
     has_inv = class_kind and kind not in ("static", "classm") and invs
     if has_inv and kind in INV_BEFORE:
         for n in invs:
@@ -630,6 +636,7 @@ def feat(spec, shape="-", body_mode="-", mut="-"):
         "post": "/".join(str(lv["post"]) for lv in spec["levels"]),
         "snap": "/".join(str(lv["snap"]) for lv in spec["levels"]),
         "inv": "/".join(str(lv["inv"]) for lv in spec["levels"]),
+        "inv_on": "/".join(lv["inv_on"] for lv in spec["levels"]),
         "defines": "/".join("1" if lv["defines"] else "0" for lv in spec["levels"]),
         "style": spec["style"], "err": spec["err"], "layout": spec["layout"], "cap_alias": spec["cap_alias"],
         "post_old": spec["post_old"], "foreign": spec["foreign"],
